@@ -4,6 +4,8 @@ import (
 	"flag"
 	"fmt"
 	"math/rand"
+	"os"
+	"runtime"
 	"sort"
 	"strings"
 	"sync"
@@ -42,6 +44,16 @@ func cmdC11(args []string) error {
 		if round%3 == 0 {
 			k.policy.RenewLife = 10 * time.Second
 		}
+		// every fifth round the KDC's clock is 270 s behind the client's (legal: inside the 300 s skew) and tickets live 300 s: a fresh
+		// TGT is then already in the last sixth of its life, so that every service-ticket request that misses the cache refreshes the
+		// session itself (ensureValidSession -> refreshSession: renewal or a new login) instead of leaving that to the background goroutine
+		behind := round%5 == 4
+		if behind {
+			k.policy.ClockOffset, k.policy.Lifetime, k.policy.TGTLifetime = -270*time.Second, 300*time.Second, 300*time.Second
+			if round%2 == 0 {
+				k.policy.RenewLife = 900 * time.Second
+			}
+		}
 		for _, p := range append([]string{"krbtgt/" + realm, "alice"}, spns...) {
 			if _, err := k.addPrincipal(realm, p, "pw-"+p, []int32{17}); err != nil {
 				return err
@@ -60,6 +72,9 @@ func cmdC11(args []string) error {
 			"udp_preference_limit": "1"}
 		if round%3 == 0 {
 			lib["renew_lifetime"] = "10"
+		}
+		if behind && round%2 == 0 {
+			lib["renew_lifetime"] = "900"
 		}
 		conf := simConf(realm, map[string][]string{realm: addrs}, lib, map[string]string{".c11.test": realm})
 		// password-change servers (never contacted: only their resolution is exercised)
@@ -84,6 +99,7 @@ func cmdC11(args []string) error {
 			Ok      bool     `json:"ok"`
 			Tkt     string   `json:"tkt"`
 			Key     string   `json:"key"`
+			KeyEnd  string   `json:"keyEnd"` // the same key object read again when the round is over (after Destroy)
 			Servers []string `json:"servers"`
 			Count   int      `json:"count"`
 			Panic   string   `json:"panic"`
@@ -91,7 +107,14 @@ func cmdC11(args []string) error {
 		}
 		var mu sync.Mutex
 		var results []res
+		held := map[int]types.EncryptionKey{} // index in results -> the key object a caller was handed and keeps
 		add := func(x res) { mu.Lock(); results = append(results, x); mu.Unlock() }
+		addHeld := func(x res, key types.EncryptionKey) {
+			mu.Lock()
+			results = append(results, x)
+			held[len(results)-1] = key
+			mu.Unlock()
+		}
 		var wg sync.WaitGroup
 		start := make(chan struct{})
 		for i := 0; i < g; i++ {
@@ -124,8 +147,10 @@ func cmdC11(args []string) error {
 						}
 						if x.Ok && len(tkt.EncPart.Cipher) >= 8 {
 							x.Tkt, x.Key = hx(tkt.EncPart.Cipher[len(tkt.EncPart.Cipher)-8:]), hx(key.KeyValue)
+							addHeld(x, key)
+						} else {
+							add(x)
 						}
-						add(x)
 					case c < 7 && rr.Intn(2) == 0:
 						x := res{Op: "kpasswd"}
 						x.Panic = catch(func() {
@@ -191,15 +216,20 @@ func cmdC11(args []string) error {
 		k.close()
 		sort.Strings(addrs)
 		mu.Lock()
+		for i, key := range held {
+			results[i].KeyEnd = hx(key.KeyValue)
+		}
 		for i := range results {
 			if results[i].Servers == nil {
 				results[i].Servers = []string{}
 			}
 		}
-		tw.emit(map[string]interface{}{"round": round, "g": g, "nkdc": nk, "long": long, "destroyMid": destroyMid, "configured": addrs, "kpConfigured": kps, "results": results, "issued": issued,
+		tw.emit(map[string]interface{}{"round": round, "g": g, "nkdc": nk, "long": long, "behind": behind, "destroyMid": destroyMid, "configured": addrs, "kpConfigured": kps, "results": results, "issued": issued,
 			"deadlock": deadlock, "configUnchanged": cfgBefore == cfgAfter})
 		mu.Unlock()
 		if deadlock {
+			buf := make([]byte, 1<<20)
+			fmt.Fprintf(os.Stderr, "==== goroutines of the round that did not finish ====\n%s\n", buf[:runtime.Stack(buf, true)])
 			return fmt.Errorf("watchdog: round %d did not finish (recorded as deadlock)", round)
 		}
 	}
